@@ -7,6 +7,7 @@ observations (impl vs oracle: the property itself). The two are reported separat
 """
 import json
 import os
+import zlib
 import random
 import shutil
 import sys
@@ -296,6 +297,8 @@ def oracles(rec):
                 if st in leaf_data:
                     if (v != '-') != (cur[1] == st):
                         fail('C08', f'in state {cur[1]}: data of {st} is {"present" if v != "-" else "absent"}')
+                        # observed through the dynamic reader: the reader is not gated by the current state
+                        fail('C11', f'in state {cur[1]} the reader of {st} returns {"a value" if v != "-" else "nothing"}')
         if cur[0] == 'typed':
             for st, sp in leaf_data.items():
                 v = cur[3].get(sp['field'], '-')
@@ -573,13 +576,13 @@ def run(tier, seed, work, repo, suspects=None):
     crates = gen_defs(tier, seed)
     if suspects:
         ds = []
-        for k, (feature, d) in enumerate(suspects):
+        for k, (feature, d, orig_id) in enumerate(suspects):
             try:
                 td = T.t3ify(d)
             except Exception:
                 continue
             ds.append({'id': f'sus{k}', 'feature': bool(feature), 'def': td, 'family': 'suspect', 'crate': len(crates), 'mod': k,
-                       'suspect': True})
+                       'suspect': True, 'style_id': orig_id})
             try:
                 rd, mapping = rename_def(td, neutral=True)
                 ds.append({'id': f'sus{k}r', 'feature': bool(feature), 'def': rd, 'family': 'suspect', 'crate': len(crates),
@@ -602,7 +605,8 @@ def run(tier, seed, work, repo, suspects=None):
               'families': {}, 'samples': [], 'hooks_traced': 0, 'shapes': {}}
     for x in allds:
         x['info'] = infos.get(x['id'], {'err': 'no info'})
-        x['text'] = D.to_text(x['def'])
+        # the separator style of the DSL text is drawn per machine (a suspect keeps the style it had in T1/T2)
+        x['text'] = D.to_text(x['def'], random.Random(zlib.crc32(x.get('style_id', x['id']).encode())))
     def build_unit(name, ds, feature, target=None):
         """builds one harness crate; the binary is copied to bin<name> (units of one crate share the
         crate's target directory, so the dependencies are compiled once)"""
